@@ -152,7 +152,7 @@ func newSessionWith(client *stubClient, dir string, rootDir string, initOpts any
 	return s, nil
 }
 
-func (s *session) watch(uri protocol.DocumentURI) { route(string(uri), s.ctl.hook) }
+func (s *session) watch(uri protocol.DocumentURI)   { route(string(uri), s.ctl.hook) }
 func (s *session) unwatch(uri protocol.DocumentURI) { route(string(uri), nil) }
 
 func (s *session) open(uri protocol.DocumentURI, text string) error {
